@@ -1,9 +1,7 @@
 (** * Gen/ClientGenTopS.v — C20: the main statements about the generator of the current tree
     ([generate_s], [generate_real]) WITHOUT the exclusion of member-name clashes.
 
-    The top layer over ClientGenMainS.v: inside the envelope [env], for a schema and a document in
-    which no composite type / fragment / type condition is named with a leading "__"
-    ([names_no_dunder], names only), the generator accepts; every declaration is a struct whose
+    The top layer over ClientGenMainS.v: inside the envelope [env] the generator accepts; every declaration is a struct whose
     field names are pairwise distinct and whose UnmarshalJSON only touches existing fields, refers
     to declared types only, has a forwarding method only where the underlying type has one, and is
     printable; the <Op>Data / <F>Fragment names are pairwise distinct (from the validity of the
@@ -13,7 +11,7 @@
 From Coq Require Import List NArith Bool String Lia.
 From ApiFu Require Import Base.Sexp Gen.GoTypes Gen.ClientGenModel Gen.DecodeModel Gen.ClientGenSpec Gen.ClientGenLemmas
   Gen.DecodeLemmas Gen.ClientGenProofs Gen.ClientGenGood Gen.ClientGenFinal Gen.ClientGenDecode Gen.ClientGenMain Gen.ClientGenDeclSafe Gen.ClientGenFresh Gen.ClientGenAgree
-  Gen.ClientGenDecodeS Gen.ClientGenMainS Gen.LoadSchemaModel Gen.LoadSchemaProofs Gen.ClientGenClauses.
+  Gen.ClientGenDecodeS Gen.ClientGenMainS Gen.ClientGenDeclSafeS Gen.LoadSchemaModel Gen.LoadSchemaProofs Gen.ClientGenClauses.
 Import ListNotations.
 
 (** ** the Go name of an enum type is not a keyword *)
@@ -33,10 +31,10 @@ Proof.
   rewrite IH. rewrite map_app. simpl. rewrite <- app_assoc. reflexivity.
 Qed.
 
-Lemma enum_go_name_not_keyword S d n n' vs :
-  lookup_type S n = Some (DEnum n' vs) -> go_keyword (enum_go_name S d n) = false.
+Lemma enum_go_name_not_keyword_In S d n vs :
+  In (DEnum n vs) (s_types S) -> go_keyword (enum_go_name S d n) = false.
 Proof.
-  intros El. apply find_some_name in El as [En Hin]. simpl in En. subst n'.
+  intros Hin.
   assert (Hk : In n (map fst (fst (enum_name_map S d)))).
   { unfold enum_name_map. rewrite assign_gen_keys. simpl. apply in_map_iff. exists (n, vs). split; [reflexivity|].
     unfold schema_enums. apply in_flat_map. exists (DEnum n vs). split; [exact Hin | left; reflexivity]. }
@@ -44,6 +42,12 @@ Proof.
   destruct (enum_type_names_distinct S d) as [_ Hfree]. specialize (Hfree x Hs).
   unfold go_keyword. apply mem_false. intro Hi. apply Hfree. rewrite reserved_is. unfold go_reserved.
   apply in_app_iff. left. apply in_app_iff. left. apply in_app_iff. left. exact Hi.
+Qed.
+
+Lemma enum_go_name_not_keyword S d n n' vs :
+  lookup_type S n = Some (DEnum n' vs) -> go_keyword (enum_go_name S d n) = false.
+Proof.
+  intros El. apply find_some_name in El as [En Hin]. simpl in En. subst n'. apply (enum_go_name_not_keyword_In S d n vs Hin).
 Qed.
 
 (** ** <Op>Data and <F>Fragment names are pairwise distinct in a valid document *)
@@ -76,14 +80,8 @@ Proof.
     destruct Ha as [Ha|[]]. apply in_map_iff in Hb as [f [Hb _]]. subst x. exact (data_not_fragment _ _ (eq_sym Hb)).
 Qed.
 
-Lemma names_no_dunder_elim S d : names_no_dunder S d = true -> forall k, In k (DashD S d) -> starts_uu k = false.
-Proof.
-  intros H k Hk. unfold names_no_dunder in H. rewrite forallb_forall in H. specialize (H k Hk).
-  rewrite starts_uu_with. apply negb_true_iff. exact H.
-Qed.
-
-Lemma def_names_outs S frs en cn Keys Dash fuel st' defs outs :
-  Forall2 (def_res_s S frs en cn Keys Dash fuel st') defs outs -> map td_name outs = dnames defs.
+Lemma def_names_outs S frs en cn fuel st' defs outs :
+  Forall2 (def_res_s S frs en cn fuel st') defs outs -> map td_name outs = dnames defs.
 Proof.
   induction 1 as [|def td defs outs Hr H IH]; [reflexivity|].
   destruct Hr as [r [dn [core [s0 [s0' [_ [Hdn [_ [Etd _]]]]]]]]]. unfold dnames in *. simpl. rewrite IH, Hdn, Etd. reflexivity.
@@ -93,14 +91,13 @@ Section TopS.
   Variable S : schema.
   Variable d : document.
   Hypothesis Henv : env S d = true.
-  Hypothesis Hnd : names_no_dunder S d = true.
 
   Let frs := d_frags d.
   Let fragTypes := map (fun f => (fr_name f, fr_cond f)) frs.
   Let fuel := Datatypes.S (doc_size d).
   Notation en := (enum_go_name S d).
   Notation cn := (const_go_name S d).
-  Notation def_res_d := (def_res_s S frs en cn (KeysD d) (DashD S d) fuel).
+  Notation def_res_d := (def_res_s S frs en cn fuel).
 
   Lemma env_parts_s :
     schema_ok S = true /\ doc_valid S d = true /\
@@ -117,25 +114,21 @@ Section TopS.
     - intros f Hf. rewrite forallb_forall in H4. specialize (H4 f Hf). apply andb_true_iff in H4 as [H4 _]. exact H4.
   Qed.
 
-  Lemma HDashD : forall k, In k (DashD S d) -> starts_uu k = false.
-  Proof. exact (names_no_dunder_elim S d Hnd). Qed.
-  Lemma HCompD : incl (composites S) (DashD S d).
-  Proof. unfold DashD. apply incl_appl. apply incl_refl. Qed.
   Lemma HenD : forall n n' vs, lookup_type S n = Some (DEnum n' vs) -> go_keyword (en n) = false.
   Proof. intros n n' vs H. exact (enum_go_name_not_keyword S d n n' vs H). Qed.
 
-  Lemma defs_ok_s : Forall (def_ok_s S frs (KeysD d) (DashD S d) fuel) (defs_of S d).
+  Lemma defs_ok_s : Forall (def_ok_s S frs fuel) (defs_of S d).
   Proof.
     destruct env_parts_s as [_ [_ [Hops Hfrs]]]. apply Forall_forall. intros def Hd0.
-    pose proof (defs_SelsIn S d def Hd0) as Hsi. revert Hd0 Hsi. unfold defs_of. intros Hd Hsi.
+    revert Hd0. unfold defs_of. intros Hd.
     apply in_app_iff in Hd as [Hd|Hd].
     - apply in_map_iff in Hd as [o [Ed Ho]]. subst def. destruct (Hops o Ho) as [n [r [En [Er Ha]]]].
       exists r, (data_type_name n). simpl in *. unfold root_type in Er. rewrite Er, En.
-      split; [reflexivity|]. split; [reflexivity|]. split; [exact Ha|]. split; [exact Hsi|].
+      split; [reflexivity|]. split; [reflexivity|]. split; [exact Ha|].
       unfold fuel. pose proof (doc_size_op d o Ho). lia.
     - apply in_map_iff in Hd as [f [Ed Hf]]. subst def.
       exists (fr_cond f), (frag_type_name (fr_name f)). simpl in *.
-      split; [reflexivity|]. split; [reflexivity|]. split; [apply Hfrs; exact Hf|]. split; [exact Hsi|].
+      split; [reflexivity|]. split; [reflexivity|]. split; [apply Hfrs; exact Hf|].
       unfold fuel. pose proof (doc_size_frag d f Hf). lia.
   Qed.
 
@@ -149,7 +142,7 @@ Section TopS.
       (forall td, In td outs -> type_syntax_ok (td_type td) = true).
   Proof.
     destruct env_parts_s as [HS [Hv _]].
-    destruct (process_defs_ok_s S frs HS en cn (KeysD d) (DashD S d) HDashD HCompD HenD fuel (defs_of S d)
+    destruct (process_defs_ok_s S frs HS en cn HenD fuel (defs_of S d)
                                 {| g_enums := []; g_count := 0; g_json := false |} [] defs_ok_s)
       as [st' [outs [Hp [[_ Hext] Hres]]]].
     assert (Hkw : forall e, In e (g_enums st') -> go_keyword (fst e) = false).
@@ -166,7 +159,7 @@ Section TopS.
         - intros e He. rewrite (Hkw e He). reflexivity.
         - exact Hsy. }
       rewrite Hps. reflexivity.
-    - rewrite (def_names_outs _ _ _ _ _ _ _ _ _ _ Hres). rewrite dnames_defs. apply (doc_valid_def_names S d Hv).
+    - rewrite (def_names_outs _ _ _ _ _ _ _ _ Hres). rewrite dnames_defs. apply (doc_valid_def_names S d Hv).
   Qed.
 End TopS.
 
@@ -174,7 +167,6 @@ Section TheoremsS.
   Variable S : schema.
   Variable d : document.
   Hypothesis Henv : env S d = true.
-  Hypothesis Hnd : names_no_dunder S d = true.
 
   Let frs := d_frags d.
   Let fuel := Datatypes.S (doc_size d).
@@ -190,7 +182,7 @@ Section TheoremsS.
               forallb (fun e : name * list (name * name) => negb (go_keyword (fst e))) (p_enums p) = true /\
               (forall dfn, In dfn (p_defs p) -> type_syntax_ok (td_type dfn) = true).
   Proof.
-    destruct (generate_s_ok S d Henv Hnd) as [st' [outs [Hgen [Hres [HND [Hkw Hsy]]]]]].
+    destruct (generate_s_ok S d Henv) as [st' [outs [Hgen [Hres [HND [Hkw Hsy]]]]]].
     set (p := {| p_enums := g_enums st'; p_defs := outs; p_json := g_json st' |}) in *.
     exists p. split; [exact Hgen|].
     assert (Hall : forall td, In td (p_defs p) ->
@@ -221,20 +213,19 @@ Section TheoremsS.
                 (forall pl, In pl (leaves v) <-> In pl (expected S o w)).
   Proof.
     intros Hgen0 Ho Hname Hconf.
-    destruct (generate_s_ok S d Henv Hnd) as [st' [outs [Hgen [Hres [HND [Hkw Hsy]]]]]].
+    destruct (generate_s_ok S d Henv) as [st' [outs [Hgen [Hres [HND [Hkw Hsy]]]]]].
     rewrite Hgen in Hgen0. inversion Hgen0 as [Ep]. clear Hgen0.
     set (p' := {| p_enums := g_enums st'; p_defs := outs; p_json := g_json st' |}) in *.
     assert (HND' : NoDup (map td_name (p_defs p'))) by exact HND.
     destruct (env_parts_s S d Henv) as [HS [_ [Hops _]]].
     (* the fragments *)
-    assert (HP : frags_gen_s S frs en cn (KeysD d) (DashD S d) p').
+    assert (HP : frags_gen_s S frs en cn p').
     { intros fr Hfr.
       assert (Hd : In (Some (fr_cond fr), fr_sels fr, Some (frag_type_name (fr_name fr))) (defs_of S d)).
       { unfold defs_of. apply in_app_iff. right. apply in_map_iff. exists fr. split; [reflexivity | exact Hfr]. }
-      pose proof (defs_SelsIn S d _ Hd) as Hsi. cbn [fst snd] in Hsi.
       destruct (Forall2_In_l _ _ _ _ Hres Hd) as [td [Htd [r [dn [core [s0 [s0' [Hr [Hdn [Hg [Etd _]]]]]]]]]]].
       simpl in Hr, Hdn, Hg. inversion Hr; subst r. inversion Hdn; subst dn.
-      exists core, fuel, s0, s0'. split; [exact Hg|]. split; [exact Hsi|]. split.
+      exists core, fuel, s0, s0'. split; [exact Hg|]. split.
       - pose proof (lookup_def_In p' td HND' Htd) as Hl. subst td. exact Hl.
       - specialize (Hsy td Htd). subst td. exact Hsy. }
     (* the operation *)
@@ -275,29 +266,77 @@ Lemma generate_real_loadable D S valid d : schema_loadable S = true -> generate_
 Proof. intros HL. rewrite generate_real_unfold. rewrite (load_schema_roundtrip S HL). reflexivity. Qed.
 
 Theorem real_s_accepts : forall D S d,
-  env S d = true -> schema_loadable S = true -> names_no_dunder S d = true ->
+  env S d = true -> schema_loadable S = true ->
   exists p, generate_real D S (doc_valid S d) d = GOk p /\
             cl_struct_members p /\ cl_references p /\ cl_method_forwarders p /\
             NoDup (map td_name (p_defs p)) /\
             forallb (fun e : name * list (name * name) => negb (go_keyword (fst e))) (p_enums p) = true /\
             (forall dfn, In dfn (p_defs p) -> type_syntax_ok (td_type dfn) = true).
-Proof. intros D S d H1 HL H2. rewrite (generate_real_loadable D S _ d HL). apply gen_s_accepts; assumption. Qed.
+Proof. intros D S d H1 HL. rewrite (generate_real_loadable D S _ d HL). apply gen_s_accepts; assumption. Qed.
 
 Theorem real_s_decodes : forall D S d,
-  env S d = true -> schema_loadable S = true -> names_no_dunder S d = true ->
+  env S d = true -> schema_loadable S = true ->
   forall p o opname w,
     generate_real D S (doc_valid S d) d = GOk p ->
     In o (d_ops d) -> op_name o = Some opname -> conforms S o w = true ->
     exists n v, (forall fuel, (n <= fuel)%nat -> decode_op p fuel opname (json_of w) = DOk v) /\
                 (forall pl, In pl (leaves v) <-> In pl (expected S o w)).
 Proof.
-  intros D S d H1 HL H2 p o opname w Hg. rewrite (generate_real_loadable D S _ d HL) in Hg.
-  apply (gen_s_decodes S d H1 H2 p o opname w Hg).
+  intros D S d H1 HL p o opname w Hg. rewrite (generate_real_loadable D S _ d HL) in Hg.
+  apply (gen_s_decodes S d H1 p o opname w Hg).
 Qed.
 
-(** the premise is part of the names-only condition [decl_safe] *)
-Lemma decl_safe_no_dunder S d : decl_safe S d = true -> names_no_dunder S d = true.
+(** ** identifiers: the fields of every declaration, the emitted enum blocks, the sel<T><n> helpers
+    (ClientGenDeclSafeS.v).  [lex_fields]: every response key, composite type name, fragment name
+    and type condition gives a usable Go field name (true of every GraphQL name but "_", whose
+    field would be the blank identifier - known finding blank-field-name) *)
+Definition lex_fields (S : schema) (d : document) : bool :=
+  forallb (fun k => go_ident_ok (field_name k)) (KeysD d ++ DashD S d).
+
+Theorem gen_s_idents S d p :
+  schema_ok S = true -> lex_fields S d = true -> generate_s S (doc_valid S d) d = GOk p ->
+  (forall dfn, In dfn (p_defs p) -> idents_ok (td_type dfn) = true) /\
+  NoDup (map fst (p_enums p)) /\
+  (forall n' cs, In (n', cs) (p_enums p) ->
+     exists n vs, In (DEnum n vs) (s_types S) /\ n' = enum_go_name S d n /\ cs = map (fun v => (const_go_name S d n v, v)) vs) /\
+  NoDup (map snd (DX (p_defs p))) /\
+  (forall ix, In ix (DX (p_defs p)) -> In (fst ix) (composites S)) /\
+  (forallb (fun t => negb (ends_with_digit t)) (composites S) = true ->
+   NoDup (flat_map (fun x => sel_names (td_type x)) (p_defs p))).
 Proof.
-  unfold decl_safe, names_no_dunder. intros H. apply andb_true_iff in H as [H _]. apply andb_true_iff in H as [_ H].
-  rewrite forallb_forall in *. intros x Hx. specialize (H x Hx). apply andb_true_iff in H as [_ H]. exact H.
+  intros HS Hlex Hgen. unfold generate_s, generate_raw_s in Hgen.
+  destruct (doc_valid S d); [|discriminate]. cbn [negb] in Hgen.
+  destruct (process_defs_s S (map (fun f => (fr_name f, fr_cond f)) (d_frags d)) (enum_go_name S d) (const_go_name S d)
+                           (Datatypes.S (doc_size d)) (defs_of S d) {| g_enums := []; g_count := 0; g_json := false |} [] false)
+    as [[[st out] errored]| | |] eqn:Ep; try discriminate.
+  destruct errored; [discriminate|].
+  unfold lex_fields in Hlex. rewrite forallb_forall in Hlex.
+  assert (HP0 : PIs S (enum_go_name S d) (const_go_name S d) {| g_enums := []; g_count := 0; g_json := false |} []).
+  { unfold PIs, StOKs. cbn. split; [split; [intros n cs [] | constructor]|]. split; [intros q []|]. split; [constructor | intros x []]. }
+  pose proof (process_PIs S _ (enum_go_name S d) (const_go_name S d) (KeysD d) (DashD S d)
+                (fun k Hk => Hlex k (in_or_app _ _ _ (or_introl Hk))) (fun k Hk => Hlex k (in_or_app _ _ _ (or_intror Hk)))
+                (fun x Hx => in_or_app _ _ _ (or_introl Hx))
+                (enum_go_name_not_keyword_In S d) (no_scalars S HS) _ _ _ _ _ _ _ _ Ep HP0 (defs_SelsIn S d))
+    as ([E1 E2] & P2 & P3 & P4).
+  set (q := {| p_enums := g_enums st; p_defs := out; p_json := g_json st |}) in *.
+  destruct (program_syntax_ok q); [|discriminate]. inversion Hgen; subst p. cbn [p_defs p_enums q].
+  split; [intros dfn Hd; apply (P4 dfn Hd)|]. split; [exact E2|]. split; [exact E1|]. split; [exact P3|].
+  split; [intros ix Hix; apply (P2 ix Hix)|].
+  intros Hdig. rewrite forallb_forall in Hdig.
+  assert (HSN : flat_map (fun x => sel_names (td_type x)) out = map ixname (DX out)).
+  { unfold DX. rewrite map_flat_map. apply flat_map_ext_in. intros x _. apply sel_names_ix. }
+  rewrite HSN. apply NoDup_ixnames; [exact P3|]. intros ix Hix. apply negb_true_iff. apply Hdig. apply (P2 ix Hix).
 Qed.
+
+Theorem real_s_idents : forall D S d p,
+  schema_ok S = true -> schema_loadable S = true -> lex_fields S d = true ->
+  generate_real D S (doc_valid S d) d = GOk p ->
+  (forall dfn, In dfn (p_defs p) -> idents_ok (td_type dfn) = true) /\
+  NoDup (map fst (p_enums p)) /\
+  (forall n' cs, In (n', cs) (p_enums p) ->
+     exists n vs, In (DEnum n vs) (s_types S) /\ n' = enum_go_name S d n /\ cs = map (fun v => (const_go_name S d n v, v)) vs) /\
+  NoDup (map snd (DX (p_defs p))) /\
+  (forall ix, In ix (DX (p_defs p)) -> In (fst ix) (composites S)) /\
+  (forallb (fun t => negb (ends_with_digit t)) (composites S) = true ->
+   NoDup (flat_map (fun x => sel_names (td_type x)) (p_defs p))).
+Proof. intros D S d p HS HL Hlex Hg. rewrite (generate_real_loadable D S _ d HL) in Hg. apply (gen_s_idents S d p HS Hlex Hg). Qed.
